@@ -106,3 +106,7 @@ def main(tier):
 
 def replay(path):
     return F.replay_history(path, CLAUSES, PROP)
+
+
+def selftest():
+    return F.selftest(PROP)
